@@ -601,3 +601,293 @@ Example C01_source_media_type_shape :
   existsb (bytes_eqb (B "len(x) > 0;UnmarshalJSON")) known_read_guards = false /\
   existsb (bytes_eqb (B "MimeType")) known_convs = true.
 Proof. split; vm_compute; reflexivity. Qed.
+
+(* ================================================================== values with NIL-LIKE entries (builder b66) =====
+   The class wf_vocab holds no nil-like entry.  C20 (builder b24, Proofs/NilEncP.v) proves that the encoder cannot tell a
+   value from its erasure: a typed nil pointer / untyped nil, at any depth, is written as NOTHING.  Composed with the round
+   trip on the erased value: a value holding typed nil pointers (of any of the 14 kinds) or untyped nils in item
+   properties, as list members and as Endpoints entries, at any depth, comes back as the normal form of its erasure.
+
+     erase x = dropn (scrub x)            (Model/NilErase.v)
+       scrub (Model/NilEmbed.v, C20's twin): every typed nil pointer becomes the untyped nil; a PROPERTY (or Endpoints
+         entry) that then holds the untyped nil is unset; a LIST MEMBER stays in place as the untyped nil - C20's erasure
+         relation keeps list lengths;
+       dropn: every untyped-nil MEMBER of every list, at any depth, is REMOVED - what the real encoder does:
+         [a, typed nil *Object, b] is written [a,b] and comes back with two members (C01_erase_list).
+     nil_lists_ok x: every list inside scrub x either loses no member or keeps at least two.  Needed
+       (C01_nil_like_list_condition_needed, replayed on the code by Cases_C01_nil): the encoder writes a one-member list as the
+       member alone, but [a, nil] as the array [a] - it comes back as a list of one member, not as a; and [nil, nil]
+       in an `ItemCollection` position is written [] and comes back unset.
+   The one-directional statement of C20 (enc x = Some b -> enc x' = Some b) is turned into an equation by b54's
+   definedness theorem (the encoder model answers on every well-typed value; well_typed also gives "no struct and no
+   Endpoints binds a field twice", which scrub needs: Proofs/C01NilP.v well_typed_fields_once).
+   Nil-likes covered: the untyped nil and typed nil pointers.  NOT covered (C20's erasure relation does not erase them):
+   the empty / "-" IRI in an item position, empty lists, an Endpoints all of whose entries are nil-like, a source
+   content that writes nothing - a value holding one of these is still outside the proved class (wf_vocab (erase x) fails). *)
+From AP.Model Require Import NilMatrix NilEmbed NilFlatten NilErase EncTyped.
+From AP.Proofs Require Import C01NilP.
+Local Open Scope nat_scope.
+
+(* the two table conditions of C20 and C02 this part needs, on the tables regenerated on this run *)
+Theorem C01_nil_tables :
+  nil_transparent jw_tables = true /\ enc_defined_tables_ok jw_tables layout_endpoints layout_of = true.
+Proof. split; vm_compute; reflexivity. Qed.
+
+(* what the erasure does to a struct, a list, a property, a list member *)
+Theorem C01_erase_struct : forall p k fs, erase (IObj p k fs) = IObj p k (dropn_fields (scrub_fields fs)).
+Proof. reflexivity. Qed.
+Theorem C01_erase_list : forall p l, erase (IItems p (Some l)) = IItems p (Some (dropn_list (map scrub l))).
+Proof. reflexivity. Qed.
+Theorem C01_erase_list_members : forall l, length (dropn_list l) = kept_count l.
+Proof. exact dropn_list_length. Qed.
+Theorem C01_erase_nil_like : forall n, nil_like n = true -> erase n = INil.
+Proof. destruct n; try discriminate; reflexivity. Qed.
+Example C01_erase_examples : forall a b k k',
+  is_inil (scrub a) = false -> is_inil (scrub b) = false ->
+  erase (IItems false (Some [a; ITNil k; b; INil])) = IItems false (Some [erase a; erase b]) /\
+  erase (IObj true KObject [(F_Icon, FItem (ITNil k)); (F_Image, FItem INil); (F_Tag, FItems (Some [a; ITNil k'; b]))])
+  = IObj true KObject [(F_Tag, FItems (Some [erase a; erase b]))].
+Proof.
+  intros a b k k' Ha Hb. unfold erase. cbn [scrub scrub_fval holds_nil dropn dropn_fval].
+  destruct (scrub a); try discriminate; destruct (scrub b); try discriminate; split; reflexivity.
+Qed.
+
+(* the encoder side, generic: the bytes of x ARE the bytes of its erasure (an equation: both sides answer) *)
+Theorem C01_enc_nil_like_generic : forall jw lay layE,
+  nil_transparent jw = true -> enc_defined_tables_ok jw layE lay = true ->
+  forall x, well_typed lay layE x = true -> nil_lists_ok x = true ->
+  exists b, marshal_json jw x = Some b /\ marshal_json jw (erase x) = Some b.
+Proof. exact marshal_json_erase_eq. Qed.
+
+(* the pieces it is composed of: scrub is an erasure in C20's sense; removing untyped-nil list members is invisible *)
+Theorem C01_scrub_is_erasure : forall lay layE x, well_typed lay layE x = true -> erases x (scrub x).
+Proof. intros lay layE x H. exact (erases_scrub x (well_typed_fields_once lay layE x H)). Qed.
+Theorem C01_enc_dropped_members_generic : forall jw, nil_transparent jw = true ->
+  forall x b, lists_ok x = true -> marshal_json jw x = Some b -> marshal_json jw (dropn x) = Some b.
+Proof. exact marshal_json_dropn. Qed.
+
+(* THE ROUND TRIP, generic: for every table set with the conditions of C01 (kinds_ok, terms_raw_ok), of C20
+   (nil_transparent) and of C02 (enc_defined_tables_ok), for every well-typed x whose erasure is in the class of the
+   round-trip theorem: x is written, not as nothing, and comes back as the normal form of its erasure *)
+Theorem C01_roundtrip_nil_like_generic :
+  forall jw jr lay layE reg lsw acts actors links,
+  kinds_ok jw jr lay = true -> terms_raw_ok jw = true ->
+  nil_transparent jw = true -> enc_defined_tables_ok jw layE lay = true ->
+  forall x,
+  well_typed lay layE x = true -> nil_lists_ok x = true ->
+  wf_item lay reg lsw acts actors links (erase x) = true ->
+  (forall v, tree_of jw (erase x) = Some (Some v) -> fdepth v <= 300) ->
+  exists b, marshal_json jw x = Some b /\ b <> [] /\
+            unmarshal_json jr lay reg lsw acts actors links b = Some (Ok (norm_item lay (erase x))).
+Proof. exact json_roundtrip_nil_like_doc. Qed.
+
+(* with the sufficient condition on the value alone *)
+Theorem C01_roundtrip_nil_like_depth_generic :
+  forall jw jr lay layE reg lsw acts actors links,
+  kinds_ok jw jr lay = true -> terms_raw_ok jw = true ->
+  nil_transparent jw = true -> enc_defined_tables_ok jw layE lay = true ->
+  forall x,
+  well_typed lay layE x = true -> nil_lists_ok x = true ->
+  wf_item lay reg lsw acts actors links (erase x) = true -> ddepth (erase x) <= 149 ->
+  exists b, marshal_json jw x = Some b /\ b <> [] /\
+            unmarshal_json jr lay reg lsw acts actors links b = Some (Ok (norm_item lay (erase x))).
+Proof. exact json_roundtrip_nil_like. Qed.
+
+(* on the tables of the current tree *)
+Definition wt_vocab : item -> bool := well_typed layout_of layout_endpoints.
+Theorem C01_roundtrip_nil_like : forall x,
+  wt_vocab x = true -> nil_lists_ok x = true -> wf_vocab (erase x) = true ->
+  (forall v, tree_of jw_tables (erase x) = Some (Some v) -> fdepth v <= 300) ->
+  exists b, enc x = Some b /\ b <> [] /\ dec b = Some (Ok (norm (erase x))).
+Proof.
+  intros x Hw Hl Hwf Hd.
+  exact (json_roundtrip_nil_like_doc jw_tables jr_tables layout_of layout_endpoints registry load_switch
+           tl_ActivityTypes tl_ActorTypes tl_LinkTypes C01_round_tables C01_terms_closed
+           (proj1 C01_nil_tables) (proj2 C01_nil_tables) x Hw Hl Hwf Hd).
+Qed.
+Theorem C01_roundtrip_nil_like_depth : forall x,
+  wt_vocab x = true -> nil_lists_ok x = true -> wf_vocab (erase x) = true -> ddepth (erase x) <= 149 ->
+  exists b, enc x = Some b /\ b <> [] /\ dec b = Some (Ok (norm (erase x))).
+Proof.
+  intros x Hw Hl Hwf Hd.
+  exact (json_roundtrip_nil_like jw_tables jr_tables layout_of layout_endpoints registry load_switch
+           tl_ActivityTypes tl_ActorTypes tl_LinkTypes C01_round_tables C01_terms_closed
+           (proj1 C01_nil_tables) (proj2 C01_nil_tables) x Hw Hl Hwf Hd).
+Qed.
+
+(* the new statement contains the old one: on a value of the old class the erasure is the identity *)
+Theorem C01_erase_is_identity_example : erase c01_example = c01_example /\ erase c01_leaf_example = c01_leaf_example.
+Proof. split; vm_compute; reflexivity. Qed.
+
+(* ---- non-vacuity: typed nil pointers of seven kinds and an untyped nil at two depths - in item properties (icon,
+   target; inReplyTo of the embedded object; icon of an actor inside a list), inside lists (attachment: an item
+   position holding a list; to: an ItemCollection position), inside the lists of an embedded object.  The same value is built
+   on the Go side (harness/c01rtnil.go c01NilExample) and the real bytes / the real decoded value are compared inside Coq
+   with enc x / norm (erase x) (Cases_C01_nil). *)
+Definition c01_nil_a1 : item := IIri false (B "https://example.com/a/1").
+Definition c01_nil_a2 : item := IIri false (B "https://example.com/a/2").
+Definition c01_nil_bob : item :=
+  IObj true KActor [(F_ID, Vocab.FStr (B "https://example.com/actors/bob")); (F_Type, Vocab.FStr (B "Person"));
+                    (F_Icon, FItem (ITNil KLink))].
+Definition c01_nil_example : item :=
+  IObj true KActivity
+    [(F_ID, Vocab.FStr (B "https://example.com/activities/1")); (F_Type, Vocab.FStr (B "Create"));
+     (F_Attachment, FItem (IItems false (Some [c01_nil_a1; ITNil KActor; c01_nil_a2])));
+     (F_Icon, FItem (ITNil KObject));
+     (F_To, FItems (Some [ITNil KObject; IIri false (B "https://www.w3.org/ns/activitystreams#Public"); c01_nil_bob; ITNil KLink]));
+     (F_Actor, FItem (IIri false (B "https://example.com/actors/alice")));
+     (F_Target, FItem (ITNil KActivity));
+     (F_Object, FItem (IObj true KObject
+        [(F_ID, Vocab.FStr (B "https://example.com/notes/1")); (F_Type, Vocab.FStr (B "Note"));
+         (F_Attachment, FItem (IItems false (Some [ITNil KLink; c01_nil_a1; INil; c01_nil_a2; ITNil KPlace])));
+         (F_InReplyTo, FItem (ITNil KObject));
+         (F_Tag, FItems (Some [c01_nil_a1; ITNil KCollection; c01_nil_bob]))]))].
+Definition c01_nil_example_back : item :=
+  IObj true KActivity
+    [(F_ID, Vocab.FStr (B "https://example.com/activities/1")); (F_Type, Vocab.FStr (B "Create"));
+     (F_Attachment, FItem (IItems false (Some [c01_nil_a1; c01_nil_a2])));
+     (F_To, FItems (Some [IIri false (B "https://www.w3.org/ns/activitystreams#Public");
+                          IObj true KActor [(F_ID, Vocab.FStr (B "https://example.com/actors/bob")); (F_Type, Vocab.FStr (B "Person"))]]));
+     (F_Actor, FItem (IIri false (B "https://example.com/actors/alice")));
+     (F_Object, FItem (IObj true KObject
+        [(F_ID, Vocab.FStr (B "https://example.com/notes/1")); (F_Type, Vocab.FStr (B "Note"));
+         (F_Attachment, FItem (IItems false (Some [c01_nil_a1; c01_nil_a2])));
+         (F_Tag, FItems (Some [c01_nil_a1;
+                               IObj true KActor [(F_ID, Vocab.FStr (B "https://example.com/actors/bob")); (F_Type, Vocab.FStr (B "Person"))]]))]))].
+
+(* every hypothesis of C01_roundtrip_nil_like_depth holds; neither the value nor its C20 twin (scrub, which keeps the nil list
+   members) is in the class of the theorems above; the normal form of the erasure is the literal written above *)
+Example C01_roundtrip_nil_like_hypotheses :
+  wt_vocab c01_nil_example = true /\ nil_lists_ok c01_nil_example = true /\ wf_vocab (erase c01_nil_example) = true /\
+  ddepth (erase c01_nil_example) = 3 /\ has_typed_nil c01_nil_example = true /\
+  wf_vocab c01_nil_example = false /\ wf_vocab (scrub c01_nil_example) = false /\
+  item_eqb (norm (erase c01_nil_example)) c01_nil_example_back = true.
+Proof. repeat match goal with |- _ /\ _ => split end; vm_compute; reflexivity. Qed.
+
+Example C01_roundtrip_nil_like_example :
+  exists b, enc c01_nil_example = Some b /\ b <> [] /\ dec b = Some (Ok (norm (erase c01_nil_example))).
+Proof.
+  apply C01_roundtrip_nil_like_depth; [vm_compute; reflexivity|vm_compute; reflexivity|vm_compute; reflexivity|].
+  apply Nat.leb_le. vm_compute. reflexivity.
+Qed.
+
+(* ... and by evaluation: the bytes written for the value are the bytes written for its erasure *)
+Example C01_roundtrip_nil_like_evaluated :
+  enc c01_nil_example = enc (erase c01_nil_example) /\
+  match enc c01_nil_example with Some b => match dec b with Some (Ok y) => item_eqb y c01_nil_example_back | _ => false end | None => false end = true.
+Proof. split; vm_compute; reflexivity. Qed.
+
+(* the condition on lists is needed: with every other hypothesis in place, a two-member list of an item position that
+   keeps ONE member is written as the array [a] and comes back as a list of one member, where its erasure [a] is
+   written as a alone and comes back as a; an ItemCollection position whose members are all nil-like is written [] and
+   comes back unset (the erasure, an empty list, is outside wf_vocab anyway).  Both replayed on the real code (Cases_C01_nil). *)
+Definition c01_nil_round_ok (x : item) : bool :=
+  match enc x with
+  | Some b => match dec b with Some (Ok y) => item_eqb y (norm (erase x)) | _ => false end
+  | None => false
+  end.
+Definition c01_nil_w1 : item :=
+  IObj true KObject [(F_ID, Vocab.FStr (B "https://example.com/notes/1"));
+                     (F_Attachment, FItem (IItems false (Some [c01_nil_a1; ITNil KActor])))].
+Definition c01_nil_w2 : item :=
+  IObj true KObject [(F_ID, Vocab.FStr (B "https://example.com/notes/1")); (F_To, FItems (Some [INil; ITNil KActor]))].
+Theorem C01_nil_like_list_condition_needed :
+  (wt_vocab c01_nil_w1 = true /\ wf_vocab (erase c01_nil_w1) = true /\ nil_lists_ok c01_nil_w1 = false /\
+   c01_nil_round_ok c01_nil_w1 = false /\
+   enc c01_nil_w1 = Some (B "{""id"":""https://example.com/notes/1"",""attachment"":[""https://example.com/a/1""]}") /\
+   enc (erase c01_nil_w1) = Some (B "{""id"":""https://example.com/notes/1"",""attachment"":""https://example.com/a/1""}")) /\
+  (wt_vocab c01_nil_w2 = true /\ nil_lists_ok c01_nil_w2 = false /\ c01_nil_round_ok c01_nil_w2 = false /\
+   enc c01_nil_w2 = Some (B "{""id"":""https://example.com/notes/1"",""to"":[]}")).
+Proof. repeat match goal with |- _ /\ _ => split end; vm_compute; reflexivity. Qed.
+
+(* the sufficient condition is not necessary in an ItemCollection position (written as an array whatever its length):
+   [a, nil] under `to` comes back as the one-member list its erasure is - by evaluation only, outside the theorem *)
+Example C01_nil_like_collection_position_one_left :
+  let x := IObj true KObject [(F_ID, Vocab.FStr (B "https://example.com/notes/1")); (F_To, FItems (Some [c01_nil_a1; ITNil KActor]))] in
+  nil_lists_ok x = false /\ c01_nil_round_ok x = true.
+Proof. split; vm_compute; reflexivity. Qed.
+
+(* ================================================================== every item that is written as NOTHING ==========
+   Besides the untyped nil and typed nil pointers the encoder writes nothing for (Model/NilErase.v `nothing`): the empty
+   IRI and the nil IRI "-", a nil or empty list, the nil IRI list - in an item property, as a list member, as an Endpoints
+   entry.  C20's erasure relation does not erase these; a third simulation through the table interpreter (Proofs/C01NilP.v
+   RB_sim, marshal_json_blank) shows the encoder cannot tell them from a typed nil pointer:
+     blank x     = x with each of them, at any depth, replaced by a typed nil pointer;
+     erase_all x = erase (blank x).
+   NOT covered: an empty list in an ItemCollection-typed property (`to`, `tag`, `items`, ...: the property would have to
+   vanish, which C20's relation allows for item-typed properties only), an Endpoints all of whose entries are erased, a
+   source content that writes nothing, a text property with no text. *)
+Theorem C01_nothing_is_written_as_nothing : forall jw f x, nothing x = true -> enc_item jw (S f) x = Some [].
+Proof. intros jw f x. exact (enc_nothing jw f x). Qed.
+Theorem C01_blank_nothing : forall x, nothing x = true -> blank x = ITNil KObject.
+Proof. exact nothing_blank. Qed.
+Theorem C01_enc_blank_generic : forall jw, nil_transparent jw = true ->
+  forall x b, marshal_json jw x = Some b -> marshal_json jw (blank x) = Some b.
+Proof. exact marshal_json_blank. Qed.
+
+Theorem C01_roundtrip_nothing_generic :
+  forall jw jr lay layE reg lsw acts actors links,
+  kinds_ok jw jr lay = true -> terms_raw_ok jw = true ->
+  nil_transparent jw = true -> enc_defined_tables_ok jw layE lay = true ->
+  forall x,
+  well_typed lay layE x = true -> nil_lists_ok (blank x) = true ->
+  wf_item lay reg lsw acts actors links (erase_all x) = true ->
+  (forall v, tree_of jw (erase_all x) = Some (Some v) -> fdepth v <= 300) ->
+  exists b, marshal_json jw x = Some b /\ b <> [] /\
+            unmarshal_json jr lay reg lsw acts actors links b = Some (Ok (norm_item lay (erase_all x))).
+Proof. exact json_roundtrip_nothing_doc. Qed.
+
+Theorem C01_roundtrip_nothing : forall x,
+  wt_vocab x = true -> nil_lists_ok (blank x) = true -> wf_vocab (erase_all x) = true ->
+  (forall v, tree_of jw_tables (erase_all x) = Some (Some v) -> fdepth v <= 300) ->
+  exists b, enc x = Some b /\ b <> [] /\ dec b = Some (Ok (norm (erase_all x))).
+Proof.
+  intros x Hw Hl Hwf Hd.
+  exact (json_roundtrip_nothing_doc jw_tables jr_tables layout_of layout_endpoints registry load_switch
+           tl_ActivityTypes tl_ActorTypes tl_LinkTypes C01_round_tables C01_terms_closed
+           (proj1 C01_nil_tables) (proj2 C01_nil_tables) x Hw Hl Hwf Hd).
+Qed.
+Theorem C01_roundtrip_nothing_depth : forall x,
+  wt_vocab x = true -> nil_lists_ok (blank x) = true -> wf_vocab (erase_all x) = true -> ddepth (erase_all x) <= 149 ->
+  exists b, enc x = Some b /\ b <> [] /\ dec b = Some (Ok (norm (erase_all x))).
+Proof.
+  intros x Hw Hl Hwf Hd.
+  exact (json_roundtrip_nothing jw_tables jr_tables layout_of layout_endpoints registry load_switch
+           tl_ActivityTypes tl_ActorTypes tl_LinkTypes C01_round_tables C01_terms_closed
+           (proj1 C01_nil_tables) (proj2 C01_nil_tables) x Hw Hl Hwf Hd).
+Qed.
+
+(* on a value whose only written-as-nothing items are nils the two erasures coincide (the example above) *)
+Example C01_erase_all_extends_erase : erase_all c01_nil_example = erase c01_nil_example.
+Proof. vm_compute. reflexivity. Qed.
+
+(* non-vacuity; the same value is built on the Go side (c01NothingExample, Cases_C01_nil kind 5) *)
+Definition c01_nothing_example : item :=
+  IObj true KObject
+    [(F_ID, Vocab.FStr (B "https://example.com/notes/1")); (F_Type, Vocab.FStr (B "Note"));
+     (F_Attachment, FItem (IItems false (Some [])));
+     (F_Generator, FItem (IObj true KActor [(F_ID, Vocab.FStr (B "https://example.com/actors/bob")); (F_Type, Vocab.FStr (B "Person"));
+                    (F_Icon, FItem (IIri false [])); (F_Tag, FItems (Some [IIri false []; c01_nil_a1; c01_nil_a2]))]));
+     (F_Icon, FItem (IIri false []));
+     (F_Image, FItem (IIri false (B "-")));
+     (F_InReplyTo, FItem (IItems false None));
+     (F_Preview, FItem (IItems false (Some [c01_nil_a1; IIri false []; c01_nil_a2; IIris false None])));
+     (F_To, FItems (Some [c01_nil_a1; IIri false (B "-"); ITNil KObject; c01_nil_a2; IItems false (Some [])]))].
+Example C01_roundtrip_nothing_hypotheses :
+  wt_vocab c01_nothing_example = true /\ nil_lists_ok (blank c01_nothing_example) = true /\
+  wf_vocab (erase_all c01_nothing_example) = true /\ ddepth (erase_all c01_nothing_example) = 3 /\
+  wf_vocab (erase c01_nothing_example) = false /\
+  erase_all c01_nothing_example =
+    IObj true KObject
+      [(F_ID, Vocab.FStr (B "https://example.com/notes/1")); (F_Type, Vocab.FStr (B "Note"));
+       (F_Generator, FItem (IObj true KActor [(F_ID, Vocab.FStr (B "https://example.com/actors/bob")); (F_Type, Vocab.FStr (B "Person"));
+                                              (F_Tag, FItems (Some [c01_nil_a1; c01_nil_a2]))]));
+       (F_Preview, FItem (IItems false (Some [c01_nil_a1; c01_nil_a2])));
+       (F_To, FItems (Some [c01_nil_a1; c01_nil_a2]))].
+Proof. repeat match goal with |- _ /\ _ => split end; vm_compute; reflexivity. Qed.
+Example C01_roundtrip_nothing_example :
+  exists b, enc c01_nothing_example = Some b /\ b <> [] /\ dec b = Some (Ok (norm (erase_all c01_nothing_example))).
+Proof.
+  apply C01_roundtrip_nothing_depth; [vm_compute; reflexivity|vm_compute; reflexivity|vm_compute; reflexivity|].
+  apply Nat.leb_le. vm_compute. reflexivity.
+Qed.
